@@ -5,7 +5,7 @@ from sa.cfg import cfg_of
 from sa.effects import attr_writes
 from sa.program import dotted, norm, own_nodes, const_str
 from sa.typestate import DOMAIN, status_flow, entry_statuses_reaching
-from sa.util import (atom_is_type_test, cfg_node_of, compare_parts, enclosing_loops, guards_at, self_calls_in, stmt_text)
+from sa.util import (assignments_to, atom_is_type_test, cfg_node_of, compare_parts, enclosing_loops, guards_at, self_calls_in, stmt_text)
 from . import shared
 from .roles import CONFIG_ATTR, VIEWS, roles
 
@@ -89,7 +89,33 @@ def run(ctx):
     # ---- R4 history children are not regions ----------------------------------------
     isd = p.method("BaseInterpreter", "_is_state_done")
     loops = [l for l in own_nodes(isd.node) if isinstance(l, ast.For) and "states.values()" in norm(l.iter)]
-    c.expect("R4", "region loops in _is_state_done", len(loops), 1, isd, "_is_state_done no longer examines every region of a parallel state")
+    # the same examination written as an aggregate:  return all(<region is done>(r) for r in state.states.values() if r.type != "history")
+    aggregate = [x for x in own_nodes(isd.node) if isinstance(x, ast.Call) and isinstance(x.func, ast.Name) and x.func.id == "all" and x.args
+                 and isinstance(x.args[0], ast.GeneratorExp) and "states.values()" in norm(x.args[0].generators[0].iter)] if not loops else []
+    if aggregate:
+        from sa.cfg import split_atoms as _sa
+        ag = aggregate[0]
+        gen0 = ag.args[0].generators[0]
+        skips = any(atom_is_type_test(a_, "history") is False for cnd in gen0.ifs for a_ in _sa(cnd, True))
+        c.ob("R4", skips, isd, "doneness-skips-history", "a history child never makes a parallel state 'not done'" if skips else
+             "the region aggregate of _is_state_done treats a history pseudo-state as a region: a parallel state with a history child can never complete", ag)
+        returned = any(isinstance(r_, ast.Return) and r_.value is not None and any(y is ag for y in ast.walk(r_.value)) and not isinstance(r_.value, ast.UnaryOp) for r_ in own_nodes(isd.node))
+        c.ob("R7", returned, isd, "all-regions-done-returns-true", "the parallel state is done exactly when all(...) of its regions are" if returned else
+             "the verdict of the region aggregate is not what _is_state_done returns", ag)
+        # a region is done as soon as ONE of its active states is
+        elt = ag.args[0].elt
+        bodies = [elt]
+        if isinstance(elt, ast.Call) and isinstance(elt.func, ast.Attribute) and dotted(elt.func.value) == "self" and elt.func.attr != "_is_state_done":
+            try:
+                bodies = [p.method("BaseInterpreter", elt.func.attr).node]
+            except Exception:
+                bodies = [elt]
+        inner = [y for b_ in bodies for y in ast.walk(b_) if isinstance(y, ast.Call) and isinstance(y.func, ast.Name) and y.func.id in ("any", "all") and "_is_state_done" in norm(y) and y is not ag]
+        okagg = bool(inner) and all(y.func.id == "any" for y in inner)
+        c.ob("R7", okagg, isd, "region-done-if-any-active-state-is", "a region counts as done when some active state in it is done" if okagg else
+             "the region test is no longer 'any active state of the region is done': the region node and the ancestors of the final child are active too "
+             "and never done by themselves, so a parallel state never completes", (inner or [ag])[0])
+    c.expect("R4", "region loops in _is_state_done", len(loops) + len(aggregate), 1, isd, "_is_state_done no longer examines every region of a parallel state")
     for l in loops:
         rets = [x for s in l.body for x in ast.walk(s) if isinstance(x, ast.Return)]
         ok = bool(rets) and all(any(atom_is_type_test(a, "history") is False for a in guards_at(isd, x)) for x in rets)
@@ -166,8 +192,13 @@ def run(ctx):
         c.expect("R5", f"_complete calls in {dc.short}", len(comps), 1, dc, f"{dc.short} no longer completes the machine when a top-level final state is entered")
         # output precedence, as a fact about the two producers of the output (whether they sit in two _complete() calls or in one
         # conditional expression): the machine-level output is used exactly when it is given, the final state's own otherwise
-        producers = [x for x in own_nodes(dc.node) if isinstance(x, ast.Call) and isinstance(x.func, ast.Attribute) and x.func.attr in ("_resolve_output_value", "_resolve_output")
-                     and any(y is x for cc in comps for y in ast.walk(cc))]
+        # what is handed to _complete(): its argument expressions, and the values of the locals named in them
+        srcs = [a_ for cc in comps for a_ in cc.args]
+        for a_ in list(srcs):
+            if isinstance(a_, ast.Name):
+                srcs.extend(getattr(d_, "value", None) for d_ in assignments_to(dc, a_.id) if getattr(d_, "value", None) is not None)
+        producers = [x for e_ in srcs for x in ast.walk(e_) if isinstance(x, ast.Call) and isinstance(x.func, ast.Attribute)
+                     and x.func.attr in ("_resolve_output_value", "_resolve_output")]
         kinds = {("machine" if "machine_output" in norm(x) else "state") for x in producers}
         c.expect("R5", f"output producers under _complete in {dc.short}", len(kinds), 2, dc,
                  f"{dc.short} no longer completes the machine on both output paths (machine-level output / final state's own output)")
